@@ -1,6 +1,7 @@
 package c01
 
 import (
+	"math"
 	"testing"
 
 	"verif/harness/kit"
@@ -55,6 +56,35 @@ func TestSweep(t *testing.T) {
 					}
 				}
 			}
+		}
+	}
+	// very long buffers (beyond 65536 samples, lengths that are not multiples of 4 or 8)
+	for i, pr := range [][2]string{{"float32", "float32"}, {"int16", "int16"}, {"float64", "int32"}, {"uint8", "float32"}, {"int64", "int64"}} {
+		C := 1 + i%3
+		fr := (65536+5+i)/C + 1
+		n := C * fr
+		for _, kind := range []string{"write", "read"} {
+			Oracle.One(t, env, rec, "sweep", &Case{S: pr[0], B: pr[1], C: C, Kr: fr + 2, A: 1, Bf: fr + 1, Fix: i % 3, Ops: []Op{{Kind: "write", N: n - 3, Vals: vals}, {Kind: kind, N: n + 2, Vals: vals}}})
+		}
+		lens := make([]int, C)
+		for ch := range lens {
+			lens[ch] = fr - ch
+		}
+		Oracle.One(t, env, rec, "sweep", &Case{S: pr[0], B: pr[1], C: C, Kr: fr + 2, A: 1, Bf: fr + 1, Ops: []Op{{Kind: "writeStriped", Lens: lens, Vals: vals}, {Kind: "readStriped", Lens: lens}}})
+	}
+	// +0 and -0 are different samples: written over each other in both orders, through both writers
+	pz, nz := kit.FV(0), kit.FV(math.Copysign(0, -1))
+	for _, pr := range [][2]string{{"float32", "float32"}, {"float64", "float64"}, {"float32", "float64"}, {"float64", "float32"}} {
+		for _, seq := range [][]kit.Val{{pz, nz}, {nz, pz}, {pz, nz, pz}} {
+			var ops, sops []Op
+			for _, z := range seq {
+				ops = append(ops, Op{Kind: "write", N: 4, Vals: []kit.Val{z}})
+				sops = append(sops, Op{Kind: "writeStriped", Lens: []int{2, 1}, Vals: []kit.Val{z}})
+			}
+			ops = append(ops, Op{Kind: "read", N: 4})
+			sops = append(sops, Op{Kind: "readStriped", Lens: []int{2, 2}})
+			Oracle.One(t, env, rec, "sweep", &Case{S: pr[0], B: pr[1], C: 2, Kr: 3, A: 0, Bf: 2, Ops: ops})
+			Oracle.One(t, env, rec, "sweep", &Case{S: pr[0], B: pr[1], C: 2, Kr: 3, A: 1, Bf: 3, Fix: 1, Ops: sops})
 		}
 	}
 	// many channels (beyond 64) with uneven striped slices and interleaved forms
